@@ -738,6 +738,19 @@ func (c *FnCtx) callByContract(st *State, fs *FuncSpec, sig *types.Signature, re
 					cpost.vars[n] = results[i]
 				}
 			}
+			if len(cs.GhostFns) > 0 {
+				// ghost witnesses of the case contract: fresh function symbols (the callee proves they exist)
+				cpost.ghostOverride = map[string]string{}
+				for _, g := range cs.GhostFns {
+					if g.In {
+						continue
+					}
+					c.nfresh++
+					sym := fmt.Sprintf("G_%s_%s_%d", smtName(cs.keyTail()), g.Name, c.nfresh)
+					c.declare(sym, []string{"Int"}, "Int")
+					cpost.ghostOverride[g.Name] = sym
+				}
+			}
 			concl := "true"
 			for _, e := range cs.Ensures {
 				if !e.Local {
